@@ -566,6 +566,12 @@ theorem not_crit_facts (p : CPc) (h : crit p = false) :
 
 /-! ### projections of the two state updaters -/
 
+@[simp] theorem setW_idleExits (s : St) (i : Nat) (w : Worker) : (s.setW i w).idleExits = s.idleExits := rfl
+@[simp] theorem setC_idleExits (s : St) (t : Nat) (c : Caller) : (s.setC t c).idleExits = s.idleExits := rfl
+@[simp] theorem recSub_idleExits (s : St) (i : Nat) (r : Res) : (s.recSub i r).idleExits = s.idleExits := rfl
+@[simp] theorem setW_hwmGo (s : St) (i : Nat) (w : Worker) : (s.setW i w).hwmGo = s.hwmGo := rfl
+@[simp] theorem setC_hwmGo (s : St) (t : Nat) (c : Caller) : (s.setC t c).hwmGo = s.hwmGo := rfl
+@[simp] theorem recSub_hwmGo (s : St) (i : Nat) (r : Res) : (s.recSub i r).hwmGo = s.hwmGo := rfl
 @[simp] theorem setW_pending (s : St) (i : Nat) (w : Worker) : (s.setW i w).pending = s.pending := rfl
 @[simp] theorem setC_pending (s : St) (t : Nat) (c : Caller) : (s.setC t c).pending = s.pending := rfl
 @[simp] theorem recSub_pending (s : St) (i : Nat) (r : Res) : (s.recSub i r).pending = s.pending := rfl
